@@ -1,6 +1,7 @@
 package c17
 
 import (
+	"bytes"
 	"fmt"
 	"math"
 	"strings"
@@ -9,10 +10,17 @@ import (
 
 	geom "github.com/twpayne/go-geom"
 	"github.com/twpayne/go-geom/bigxy"
+	"github.com/twpayne/go-geom/encoding/ewkb"
+	"github.com/twpayne/go-geom/encoding/geojson"
+	"github.com/twpayne/go-geom/encoding/wkb"
+	"github.com/twpayne/go-geom/encoding/wkt"
 	"github.com/twpayne/go-geom/xy"
 	"github.com/twpayne/go-geom/xy/lineintersector"
 
 	"verifharness/internal/ev"
+	"verifharness/internal/model"
+	"verifharness/internal/refwkb"
+	"verifharness/internal/refwkt"
 	"verifharness/internal/run"
 )
 
@@ -50,7 +58,7 @@ func stressInputs(k, round int) [][4]geom.Coord {
 	return out
 }
 
-func stressCall(fn string, in [4]geom.Coord) string {
+func stressCall(fn string, in [4]geom.Coord, salt int) string {
 	p0, p1, q, r := in[0], in[1], in[2], in[3]
 	switch fn {
 	case "orientation":
@@ -103,6 +111,66 @@ func stressCall(fn string, in [4]geom.Coord) string {
 			}
 		}
 		return s
+	case "wkt-case":
+		// keywords in a letter case of their own per input (the parser is case-insensitive):
+		// a steady supply of spellings no earlier call has seen
+		// (the letter case - not the keyword - also depends on salt, which differs for every
+		// call of the concurrent phase: the answer does not)
+		kw := []string{"multilinestring", "linestring", "multipolygon", "geometrycollection", "polygon"}[int(math.Abs(q[0]))%5]
+		bits := int(math.Abs(p0[0]*8)) ^ int(math.Abs(p0[1]*4))<<7 ^ int(math.Abs(q[1]))<<3
+		caseBits := bits ^ salt*40503
+		sp := []byte(kw)
+		for i := range sp {
+			if caseBits>>(uint(i)%20)&1 == 1 {
+				sp[i] -= 'a' - 'A'
+			}
+		}
+		suffix := []string{"", " z", " Z", " m", " zM", "Zm"}[bits%6]
+		text := string(sp) + suffix + " empty"
+		if bits%3 == 0 {
+			text = string(sp) + suffix + " EMPTY"
+		}
+		t, err := wkt.Unmarshal(text)
+		if err != nil {
+			return "err:" + err.Error()
+		}
+		return fmt.Sprintf("%T %v", t, t.Layout())
+	case "decode-deep":
+		// a point under 20-60 nested collections in four formats: every decoder keeps
+		// track of how deep it is, and what one call has open is its own business
+		depth := 20 + int(math.Abs(p0[0]*4))%41
+		g := model.G{Kind: model.Point, Layout: int(geom.XY), C0: model.Bits([]float64{p0[0], p0[1]})}
+		for i := 0; i < depth; i++ {
+			g = model.G{Kind: model.GeometryCollection, Members: []model.G{g}}
+		}
+		wb, _, err := refwkb.Encode(&g, depth%2 == 0, refwkb.ISO)
+		if err != nil {
+			return "harness: " + err.Error()
+		}
+		eb, _, _ := refwkb.Encode(&g, depth%2 == 1, refwkb.EWKB)
+		wt, err := refwkt.Write(&g, nil)
+		if err != nil {
+			return "harness: " + err.Error()
+		}
+		js := strings.Repeat(`{"type":"GeometryCollection","geometries":[`, depth) + fmt.Sprintf(`{"type":"Point","coordinates":[%v,%v]}`, p0[0], p0[1]) + strings.Repeat(`]}`, depth)
+		levels := func(t geom.T, err error) string {
+			if err != nil {
+				return "err:" + err.Error()
+			}
+			n := 0
+			for {
+				gc, ok := t.(*geom.GeometryCollection)
+				if !ok || gc.NumGeoms() != 1 {
+					break
+				}
+				t = gc.Geom(0)
+				n++
+			}
+			return fmt.Sprintf("%d levels, then %T %v", n, t, t.FlatCoords())
+		}
+		var jg geom.T
+		jerr := geojson.Unmarshal([]byte(js), &jg)
+		return fmt.Sprint(levels(wkb.Unmarshal(wb)), "|", levels(ewkb.Unmarshal(eb)), "|", levels(wkt.Unmarshal(wt)), "|", levels(jg, jerr), "|", levels(wkb.Read(bytes.NewReader(wb))))
 	case "hull":
 		flat := []float64{p0[0], p0[1], q[0], q[1], p1[0], p1[1], r[0], r[1], (p0[0] + p1[0]) / 2, (p0[1] + p1[1]) / 2, p0[0], p0[1]}
 		h := xy.ConvexHullFlat(geom.XY, flat)
@@ -119,7 +187,7 @@ func propStress(c StressCase) error {
 	in := stressInputs(c.K, c.Round)
 	alone := make([]string, len(in))
 	for i := range in {
-		alone[i] = stressCall(c.Fn, in[i])
+		alone[i] = stressCall(c.Fn, in[i], 0)
 		if strings.HasPrefix(alone[i], "INPUT MODIFIED") {
 			return fmt.Errorf("%s on input %d: %s", c.Fn, i, alone[i])
 		}
@@ -134,7 +202,7 @@ func propStress(c StressCase) error {
 			err := run.Safe(func() error {
 				for n := 0; n < len(in); n++ {
 					i := (n + g*len(in)/c.G) % len(in)
-					if got := stressCall(c.Fn, in[i]); got != alone[i] {
+					if got := stressCall(c.Fn, in[i], 1+g+c.G*(n+len(in)*c.Round)); got != alone[i] {
 						return fmt.Errorf("%s on input %d %v: %q next to %d other goroutines, %q when run alone", c.Fn, i, in[i], got, c.G-1, alone[i])
 					}
 				}
@@ -183,12 +251,15 @@ func stress(t *testing.T) {
 	}
 	n := 0
 	for round := 0; round < rounds; round++ {
-		for _, fn := range []string{"orientation", "ring", "intersect", "crossing", "hull"} {
+		for _, fn := range []string{"orientation", "ring", "intersect", "crossing", "hull", "decode-deep", "wkt-case"} {
 			n++
 			if n%shards != shard {
 				continue
 			}
 			c := StressCase{Fn: fn, K: 1500, G: 16, Round: round}
+			if fn == "decode-deep" {
+				c.K = 150
+			}
 			ev.Default.CaseHash(uint64(round)<<8|uint64(len(fn)), "stress:"+fn, true, func() any { return c })
 			if !run.One(t, stressSpec, c) {
 				return
